@@ -107,6 +107,11 @@ class Prop:
                 return (i, a, b)
         return None
 
+    def fault_key(self, case, summary):
+        """Known-finding key for a process death (sanitizer abort / signal / hang) on this case, or None.
+        Lets a plug-in tolerate exactly one recorded death site (tool + call site) without a case-level known_key."""
+        return (case or {}).get("known_key")
+
     def extra_checks(self, ctx):
         """Additional obligations (e.g. table dumps, translator cross-execution). Return list of Failures."""
         return []
@@ -530,7 +535,8 @@ def correspondence(ctx, cases, batch=400):
                 mo = [l for l in mo if l != ""]
             faults = [l for l in io if l.startswith(("fault ", "atexit "))]
             if faults and not getattr(prop, "fault_is_output", False):
-                fails.append(Failure("fault", "implementation died: " + faults[0], case=c, detail={"impl": io[-5:]}))
+                fails.append(Failure("fault", "implementation died: " + faults[0], case=c, detail={"impl": io[-5:]},
+                                     key=prop.fault_key(c, faults[0])))
             mf = prop.monitor(ctx, c, io)
             if mf is not None:
                 mf.case = c
@@ -745,4 +751,5 @@ def case_still_fails(ctx, case, f):
             return False      # shrinking must not turn a divergence into an ill-formed case
         return ctx.prop.compare(ctx, case, impl, model) is not None
     m = ctx.prop.monitor(ctx, case, impl)
-    return m is not None
+    # hold the failure fixed while shrinking: the same monitor message (up to its first 24 characters), not any failure
+    return m is not None and (m.what or "")[:24] == (f.what or "")[:24]
